@@ -174,6 +174,7 @@ func runC09(c *Ctx) {
 	ruleClose(c, "R-CLOSE", pkgs, func(string) (bool, string) { return true, "" })
 	rulePutForwarding(c, "ATOMIC-THROUGH-WRAPPERS")
 	ruleDefer(c, "R-DEFER", pkgs)
+	ruleStaleErr(c, "R-STALE-ERR", pkgs)
 	ruleErrUse(c, "R-ERRUSE", pkgs, func(string) (bool, string) { return true, "" }, c15AllowedErrUse)
 
 	// ---- writer side
